@@ -18,6 +18,7 @@ import itertools
 import json
 import os
 import shutil
+import struct
 import tempfile
 
 import h5py
@@ -88,7 +89,17 @@ def art(c):
                 pass
     spec = c['spec']
     zeroed = spec.get('zeroed') or []
-    if zeroed:
+    if not spec['oids'] or not spec['sids']:
+        # a table with one axis without ids, as a filter that keeps nothing leaves it: built with one id on
+        # that axis, which is then filtered out
+        pad = dict(spec)
+        if not spec['sids']:
+            pad.update(sids=['gone'], mat=[[1.0] for _ in spec['oids']], smd=None)
+            t = T.build(pad).filter(['gone'], axis='sample', invert=True, inplace=False)
+        else:
+            pad.update(oids=['gone'], mat=[[1.0 for _ in spec['sids']]], omd=None)
+            t = T.build(pad).filter(['gone'], axis='observation', invert=True, inplace=False)
+    elif zeroed:
         # entries that are stored but hold 0.0: built non-zero, then zeroed through matrix_data
         pre = [list(row) for row in spec['mat']]
         for r, k in zeroed:
@@ -264,8 +275,27 @@ def run_impl(c):
 
 
 # ---------------------------------------------------------------- wire
+class ValueCoder(T.Coder):
+    """C14 never computes with matrix values (it only moves them and asks whether they are zero), so a value crosses
+    the wire as a small integer label: 0.0 <-> 0, the k-th smallest distinct non-zero value of the case's table <-> k.
+    Injective per case, and open to magnitudes such as 4e-12, 1e-300 or the smallest denormal that are not
+    multiples of 1/64."""
+
+    def __init__(self, universe, values):
+        T.Coder.__init__(self, universe)
+        self.vals = sorted(set(float(v) for v in values if v != 0))
+        self.vcode = {v: k + 1 for k, v in enumerate(self.vals)}
+
+    def val(self, v):
+        v = float(v)
+        return 0 if v == 0 else self.vcode[v]
+
+    def unval(self, k):
+        return 0.0 if k == 0 else self.vals[k - 1]
+
+
 def _coder(c):
-    return T.Coder(T.spec_universe(c['spec']) + list(c.get('ids', [])))
+    return ValueCoder(T.spec_universe(c['spec']) + list(c.get('ids', [])), [v for row in c['spec']['mat'] for v in row])
 
 
 def _file_tree(cd, a):
@@ -596,6 +626,8 @@ def gen(rng, tier):
         yield c
     for c in blank_id_cases(rng, tier):
         yield c
+    for c in empty_axis_cases(rng, tier):
+        yield c
     n = 50 if tier == 'quick' else 500
     for i in range(n):
         big = rng.random() < 0.35
@@ -607,6 +639,8 @@ def gen(rng, tier):
             continue
         if rng.random() < 0.3:
             spec = spice(rng, spec)
+        if rng.random() < 0.3:
+            spec = tinyfy(rng, spec)
         if rng.random() < 0.3:
             zeros = [[r, k] for r, row in enumerate(spec['mat']) for k, v in enumerate(row) if v == 0]
             if zeros:
@@ -640,6 +674,43 @@ def wide_cases(rng, tier):
                 yield dict(base, kind='cmd_json', axis=axis, ids=list(sub), ser=ser)
             for k in ('h5', 'h5nomd', 'json'):
                 yield dict(base, kind=k, axis=axis, ids=list(sub))
+
+
+TINY = [1e-9, 4e-9, -1e-9, 4e-12, 1e-300, -1e-300, 5e-324, 2.2250738585072014e-308, 1e-310, 1e-8, 2.5e-170]
+
+
+def tinyfy(rng, spec):
+    """very small magnitudes (down to denormals) in place of about half of the non-zero entries"""
+    return dict(spec, mat=[[rng.choice(TINY) if v != 0 and rng.random() < 0.5 else v for v in row] for row in spec['mat']])
+
+
+def empty_axis_cases(rng, tier):
+    """k x 0 and 0 x k tables (one axis emptied by a filter before writing): requests on the axis that has ids,
+    every reader incl. the real command; one unknown-id request on each axis"""
+    for i in range(6 if tier == 'quick' else 60):
+        spec = T.rand_spec(rng, max_r=4, max_c=4, alphabet=rng.choice(['short', 'short', 'latin1']),
+                           md=rng.choice(['none', 'text', 'group']))
+        empty = 'sample' if i % 2 == 0 else 'observation'
+        if empty == 'sample':
+            spec.update(sids=[], mat=[[] for _ in spec['oids']], smd=None)
+        else:
+            spec.update(oids=[], mat=[], omd=None)
+        spec['layout'] = ['dense']
+        axis = OTHER[empty]
+        ids = spec['oids'] if axis == 'observation' else spec['sids']
+        base = {'spec': spec, 'gen': 'g', 'stream': 'one-empty-axis'}
+        yield dict(base, kind='h5all')
+        subs = _subsets(rng, ids, tier)
+        for n_sub, sub in enumerate(subs):
+            for n_k, k in enumerate(('h5', 'h5handle', 'h5nomd', 'cmd_h5', 'json')):
+                yield dict(base, kind=k, axis=axis, ids=list(sub), ctype=CTYPES[(n_sub + n_k) % 4])
+            yield dict(base, kind='cmd_json', axis=axis, ids=list(sub), ser=SERS[n_sub % 4])
+        for c in cli_requests(rng, base, axis, ids, True, True):
+            yield c
+        for ax in (axis, empty):
+            for k in ('h5', 'h5handle', 'h5nomd', 'cmd_h5', 'json'):
+                yield dict(base, kind=k, axis=ax, ids=[UNKNOWN])
+            yield dict(base, kind='cmd_json', axis=ax, ids=[UNKNOWN], ser='lib')
 
 
 def nontrivial(c):
@@ -696,6 +767,8 @@ def classify(c):
         tags.append('request-as:' + c['ctype'])
     if c['spec'].get('zeroed'):
         tags.append('table-built-with-stored-zeros')
+    if any(v != 0 and abs(v) <= 1e-8 for row in c['spec']['mat'] for v in row):
+        tags.append('values:tiny-magnitudes')
     if c['kind'].startswith('cli_'):
         tags.append('ids-file:' + c.get('idsfile', 'plain'))
         if any(' ' in i for i in c['ids']):
